@@ -97,3 +97,38 @@ def pad_with_free(data: bytes) -> bytes:
     if not Parsed(res).well_formed():
         raise ValueError('padding produced a malformed file')
     return res
+
+
+def renumber_mfhd(data: bytes, first: int = 1, step: int = 2) -> bytes:
+    """The same media with the movie-fragment sequence numbers of the stored fragments rewritten to first, first+step, ...
+    (what is left over when one track is cut out of a two-track multiplex); nothing else changes."""
+    p = Parsed(data)
+    out = bytearray(data)
+    n = first
+    for b in p.top:
+        if b.name != 'moof':
+            continue
+        mfhd = next((c for c in b.children if c.name == 'mfhd'), None)
+        if mfhd is None:
+            raise ValueError('moof without mfhd')
+        struct.pack_into('>I', out, mfhd.pos + mfhd.hdr + 4, n)
+        n += step
+    res = bytes(out)
+    if not Parsed(res).well_formed():
+        raise ValueError('renumbering produced a malformed file')
+    return res
+
+
+def relanguage(data: bytes, lang: str) -> bytes:
+    """The same media with the language of its track (mdhd, ISO-639-2/T packed as three 5-bit letters) replaced."""
+    assert len(lang) == 3 and lang.isalpha() and lang.islower()
+    p = Parsed(data)
+    mdhd = p.find('moov', 'trak', 'mdia', 'mdhd')
+    if mdhd is None:
+        raise ValueError('no mdhd')
+    ver = data[mdhd.pos + mdhd.hdr]
+    off = mdhd.pos + mdhd.hdr + 4 + (28 if ver == 1 else 16)
+    packed = ((ord(lang[0]) - 0x60) << 10) | ((ord(lang[1]) - 0x60) << 5) | (ord(lang[2]) - 0x60)
+    out = bytearray(data)
+    struct.pack_into('>H', out, off, packed)
+    return bytes(out)
